@@ -915,6 +915,8 @@ val p_parse : envcfg -> token list -> query pres
 
 val m_compile : envcfg -> str -> query result
 
+val m_env_find : envcfg -> str -> json -> node list result
+
 type gexp =
 | GEps
 | GRange of n * n
@@ -1095,5 +1097,7 @@ val op_strlit : z list -> z list
 val op_errpos : z list -> z list
 
 val op_linecol : z list -> z list
+
+val op_env_find : z list -> z list
 
 val dispatch : z list -> z list
